@@ -47,13 +47,19 @@ Part 4  Statement histories in ONE shell session: the ledger has two query direc
     EVERY step is compared: ``.run X`` == the text with ``CLOSE ON <date of X>``, typed == the text as is, all
     computed through the API before the session starts.  Each session runs in a forked child so that it
     neither sees nor leaves process-global state and replays alone.
+    Output file sessions: the same, with the shell's output file NOT being the standard output (what ``-o FILE``
+    gives the shell; the file object keeps what was written when it is closed, like a file on disk): every
+    sequence of length 1..2 (thorough: 1..3) over {SELECT with rows, SELECT with empty result, PRINT, ``.run twin-a``,
+    ``.set`` echo, ``.tables``, ``.set boxed true``, an unknown dot-command} -- 8 + 64 (+ 512) sessions, every step
+    compared with the full oracle; the result of a statement must be in the file and nothing on stdout.
 Part 3  ``beanquery.shell.main`` through ``click.testing.CliRunner`` (in process): the full product
     -f {text,csv} x -m x -o FILE/stdout x -q x {clean ledger, ledger with load errors} x {short, long
     option spelling} x {query with rows, empty result}.
 
 Oracle
     * statement: stdout == render_text / render_csv called directly on ``conn.execute(text)`` of an
-      independent API connection with the six rendering options taken from the MODEL, numberify applied
+      independent API connection with the six rendering options taken from the MODEL, numberify (with the
+      ledger's display context; the ledger writes USD numbers with 3, 2 and 0 decimals, so quantisation shows) applied
       when the model says so, ``(empty)`` for an empty text result; stderr empty; PRINT == execute_print.
     * ``.set NAME VALUE``: certainly-valid -> exactly that field takes the parsed value (type bool/str
       checked), everything else in vars() unchanged, no error line; certainly-invalid / unknown name ->
@@ -138,6 +144,14 @@ option "title" "C19 ledger"
 2020-03-01 * "Acme" "Salary"
   Assets:Bank   1000.00 USD
   Income:Job
+
+2020-03-05 * "Pump" "Three decimals"
+  Expenses:Food   41.237 USD
+  Assets:Bank
+
+2020-03-06 * "Market" "No decimals"
+  Expenses:Food   7 USD
+  Assets:Bank
 
 2020-01-31 query "jan" "SELECT account, sum(position) AS total FROM year = 2020 GROUP BY account ORDER BY account"
 2020-03-31 query "closed" "SELECT account, sum(position) AS total FROM year = 2020 CLOSE ON 2020-02-01 GROUP BY account ORDER BY account"
@@ -491,16 +505,44 @@ def _typed_eq(a, b):
     return type(a) is type(b) and a == b
 
 
-class ShellProduct:
+class OutFile(io.StringIO):
+    """The shell's output file when it is NOT the standard output (what -o FILE hands to the shell).  Like a file
+    on disk, what was written survives close(): it stays readable for the check."""
+
     def __init__(self):
+        super().__init__()
+        self.flushed = ''
+
+    def close(self):
+        if not self.closed:
+            self.flushed += self.getvalue()
+        super().close()
+
+    def take(self):
+        if self.closed:
+            text, self.flushed = self.flushed, ''
+            return text
+        text = self.getvalue()
+        self.seek(0)
+        self.truncate()
+        return text
+
+
+class ShellProduct:
+    def __init__(self, separate=False):
+        """separate=False: the shell's output file IS sys.stdout (bean-query without -o); separate=True: it is a
+        file of its own (bean-query -o FILE), sys.stdout is captured next to it."""
         w = world()
         entries, errors, options = w.loaded
+        self.separate = separate
         self.out = io.StringIO()
         self.err = io.StringIO()
+        self.file = OutFile() if separate else None
+        self.parts = ('', '')
         self._swap_in()
         try:
             # batch mode exactly as shell_test.py builds it: no file, not interactive, no init file
-            sh = shell.BQLShell(None, self.out, interactive=False, runinit=False)
+            sh = shell.BQLShell(None, self.file if separate else self.out, interactive=False, runinit=False)
             sh.context.attach('beancount:', entries=entries, errors=errors, options=options)
             sh._extract_queries(entries)
         finally:
@@ -521,11 +563,14 @@ class ShellProduct:
         sys.stdout, sys.stderr = self._saved
 
     def _drain(self):
+        """-> (everything printed: output file first, then stdout; stderr).  self.parts keeps the two apart."""
         o, e = self.out.getvalue(), self.err.getvalue()
         for f in (self.out, self.err):
             f.seek(0)
             f.truncate()
-        return o, e
+        filed = self.file.take() if self.separate else ''
+        self.parts = (filed, o)
+        return filed + o, e
 
     def run_line(self, line):
         exc = None
@@ -603,9 +648,15 @@ class ShellProduct:
         canon_before = self.real_canon()
         out, err, exc = self.run_line(ev[1])
         after = self.snapshot()
+        problems = []
+        if self.separate and ev[0] in ('stmt', 'print', 'run'):
+            # the RESULT of a statement goes to the output file and nowhere else
+            out, beside = self.parts
+            if beside.strip():
+                problems.append(('outfile:result-beside-the-output-file',
+                                 f'{ev[1]!r}: the shell writes to a file of its own, but {beside[:200]!r} went to stdout'))
         self.info = {'out': out, 'err': err, 'exc': exc}
         self.last_observations = 3
-        problems = []
         judge = getattr(self, 'judge_' + ev[0])
         new_model = judge(ev, out, err, exc, before, after, problems)
         self.history.append(ev)
@@ -622,6 +673,10 @@ class ShellProduct:
                              f'state-changed:{ev[0]}' + (f':{ev[2]}' if ev[0] == 'error' else ''),
                              f'{ev[1]!r} must not change the settings nor any other state of the shell, but {sp}' + self._also(problems))
         self.model = new_model
+        if self.separate and self.file.closed and problems:
+            # one defect, many faces (every later command fails at its own write): one fingerprint
+            problems[:] = [('outfile:closed-during-session',
+                            'the shell closed its output file before the end of the session; ' + problems[0][1])]
         return problems
 
     @staticmethod
@@ -720,7 +775,7 @@ class ShellProduct:
         self.info['reported_by'] = 'exception' if exc is not None else 'message'
         if forbidden is not None and forbidden[0] == 'same-as':
             if exc is None and out.strip():
-                twin = ShellProduct()
+                twin = ShellProduct(self.separate)
                 for h in self.history:
                     twin.replay_step(h)
                 tout, terr, texc = twin.run_line(forbidden[1])
@@ -990,9 +1045,33 @@ def session_events():
     return [('run', '.run twin-a', 'twin-a', False), ('run', '.run twin-b', 'twin-b', False), ('stmt', _TWIN % "", twin)]
 
 
-def sessions(thorough):
+def _stmt_event(text):
+    i = next(i for i, (_, t) in enumerate(STATEMENTS) if t == text)
+    return ('print' if STATEMENTS[i][0] == 'print' else 'stmt', text, i)
+
+
+def file_session_events(seed):
+    """Alphabet of the sessions whose output file is not the standard output: one member per way of writing --
+    a SELECT with rows, a SELECT without (the ``(empty)`` marker), PRINT, .run NAME, the .set echo, .tables, an
+    assignment (changes what the next statement prints, writes nothing) and an unknown command (stderr only)."""
+    return [_stmt_event(_TWIN % ""), _stmt_event(STATEMENTS[2][1]), _stmt_event(STATEMENTS[6][1]),
+            ('run', '.run twin-a', 'twin-a', False), ('echo_all', '.set', False), ('tables', '.tables'),
+            ev_assign('boxed', 'true'), ('error', '.' + menus(seed)['unkcmd'], 'unknown-command', None, False)]
+
+
+def file_session_length(thorough):
+    return 3 if thorough else 2
+
+
+def sessions(thorough, seed=0):
     """Part 4: every sequence of length 1..3 over {.run twin-a, .run twin-b, the same text typed} in ONE shell
-    session (after a settings prefix): 3 + 9 + 27 = 39 histories per prefix."""
+    session (after a settings prefix): 3 + 9 + 27 = 39 histories per prefix.  -> [(prefix, steps, separate)]"""
+    return ([(pre, steps, False) for pre, steps in _stdout_sessions(thorough)]
+            + [((), steps, True) for n in range(1, file_session_length(thorough) + 1)
+               for steps in itertools.product(file_session_events(seed), repeat=n)])
+
+
+def _stdout_sessions(thorough):
     evs = session_events()
     prefixes = [()]
     if thorough:
@@ -1047,11 +1126,11 @@ def prime(evs):
             w.result(t)
 
 
-def run_session(prefix, steps):
+def run_session(prefix, steps, separate=False):
     """One shell, the prefix replayed, then every step applied WITH the full oracle.
     -> (number of steps executed, [(step index, fingerprint, message)], outputs)."""
     prime(steps)
-    p = ShellProduct()
+    p = ShellProduct(separate)
     for h in prefix:
         p.replay_step(h)
     found, outs = [], []
@@ -1105,11 +1184,15 @@ def shard_sessions(shard, nshards, seed, session_list):
     shell; every session additionally runs in its own forked child (see `isolated`)."""
     _set_nullvalues(seed)
     acc = Acc()
-    for i, (prefix, steps) in enumerate(session_list):
+    for i, (prefix, steps, separate) in enumerate(session_list):
         if not mine(i, shard, nshards):
             continue
-        nsteps, found, outs = isolated(run_session, prefix, steps)
+        nsteps, found, outs = isolated(run_session, prefix, steps, separate)
         acc.count('sessions')
+        if separate:
+            acc.count('sessions_with_output_file')
+            acc.count('output_file_session_steps', nsteps)
+            acc.count('output_file_steps_with_output', sum(1 for o in outs if o))
         acc.count('session_steps', nsteps)
         acc.count('transitions', nsteps)
         acc.add('session-outcomes', (tuple(e[1] for e in steps), tuple(outs)))
@@ -1117,8 +1200,10 @@ def shard_sessions(shard, nshards, seed, session_list):
             acc.add('outcomes', (ev[1], o, '', None))
         for k, fp, msg in found:
             lines = [h[1] for h in prefix] + [e[1] for e in steps[:k]]
-            report(acc, fp, (-1, len(prefix) + k, i), f'in one session, after {lines!r}: {msg}',
-                   {'part': 'session', 'seed': seed, 'prefix': _lst(prefix), 'steps': _lst(steps[:k + 1])})
+            where = 'in one session writing to a file of its own' if separate else 'in one session'
+            report(acc, fp, (-1, len(prefix) + k, i), f'{where}, after {lines!r}: {msg}',
+                   {'part': 'session', 'seed': seed, 'prefix': _lst(prefix), 'steps': _lst(steps[:k + 1]),
+                    'separate': separate})
     flush_reports(acc)
     return acc
 
@@ -1331,7 +1416,7 @@ def replay(case):
     if case.get('part') == 'session':
         prefix = [_tup(h) for h in case['prefix']]
         steps = [_tup(h) for h in case['steps']]
-        _, found, _ = run_session(prefix, steps)
+        _, found, _ = run_session(prefix, steps, bool(case.get('separate')))
         return [Violation(fp, f'in one session, after {[h[1] for h in prefix] + [e[1] for e in steps[:k]]!r}: {msg}', case)
                 for k, fp, msg in found]
     hist = [_tup(h) for h in case['history']]
@@ -1363,6 +1448,20 @@ def run(ctx):
     null_cells = sum(1 for k, t in STATEMENTS if k != 'print' for r in w.result(t)[0][1] for v in r if v is None)
     inv_cols = sum(1 for k, t in STATEMENTS if k != 'print' for c in w.result(t)[0][0]
                    if c.datatype.__name__ in ('Inventory', 'Position', 'Amount'))
+    # non-vacuity of numberify: the ledger has numbers written with more and with fewer digits than the display
+    # precision of their currency, so that quantising to the ledger's display context is visible in the output
+    off_precision = {}
+    for kind, text in STATEMENTS:
+        plain, num = w.result(text) if kind != 'print' else (None, None)
+        if isinstance(plain, tuple) and isinstance(num, tuple):
+            try:
+                raw = numberify_results(plain[0], plain[1])
+                off_precision[text] = sum(1 for a, b in zip(raw[1], num[1]) for x, y in zip(a, b)
+                                          if x is not None and y is not None and str(x) != str(y))
+            except Exception:       # noqa: BLE001 - counting only
+                off_precision[text] = -1
+    if not any(v > 0 for v in off_precision.values()):
+        raise AssertionError('no statement of the check ledger shows a number that numberify has to quantise')
     # non-vacuity of the default-close cases: the three readings must print different things
     initial = ShellProduct().model
     close_matters = {
@@ -1405,7 +1504,7 @@ def run(ctx):
     near = [i for i, h in enumerate(states) if len(h) <= 2]
     costly_states = near if ctx.quick else list(range(len(states)))
     cases = cli_cases()
-    session_list = sessions(ctx.thorough)
+    session_list = sessions(ctx.thorough, seed)
     # Part 4 first: its workers fork from this process, which has run no statement on any shell yet
     acc4 = run_shards(shard_sessions, ctx.jobs, seed, session_list, nshards=max(ctx.jobs, 1))
     tmpdir = tempfile.mkdtemp(prefix='c19-')
@@ -1469,9 +1568,15 @@ def run(ctx):
         'observer_transitions': {'cheap': acc.n['cheap'], 'costly': acc.n['costly']},
         'states_observed': len(acc.sets['states-observed']),
         'cli_cases': acc.n['cli_cases'],
+        'output_file_sessions': {'sessions': acc.n['sessions_with_output_file'],
+                                 'steps_compared': acc.n['output_file_session_steps'],
+                                 'steps_that_printed': acc.n['output_file_steps_with_output'],
+                                 'alphabet': [e[1] for e in file_session_events(seed)],
+                                 'max_length': file_session_length(ctx.thorough)},
+        'numberified_cells_changed_by_display_precision': off_precision,
         'session_histories': {'sessions': acc.n['sessions'], 'steps_compared': acc.n['session_steps'],
                               'alphabet': [e[1] for e in session_events()], 'max_length': 3,
-                              'settings_prefixes': sorted({' ; '.join(h[1] for h in pre) for pre, _ in session_list}),
+                              'settings_prefixes': sorted({' ; '.join(h[1] for h in pre) for pre, _, _ in session_list}),
                               'distinct_output_sequences': len(acc.sets['session-outcomes'])},
         'distinct_outputs_seen': len(acc.sets['outcomes']),
         'distinct_outputs_per_statement': per_stmt,
@@ -1493,4 +1598,8 @@ def run(ctx):
         'echo format free: NAME, separator, any spelling of the value the model parses back; initial values read from the real object',
         '.tables/.describe/.explain: only lower bounds (names present, non-empty, not the query result, state unchanged)',
         'the renderers, numberify_results, execute_print and Connection.execute are the yardstick the property names, not under test here',
+        'numberify = numberify_results with the DisplayFormatter built from the ledger display context (the documented, recommended use); '
+        'the check ledger has USD numbers with 3, 2 and 0 fractional digits so that the quantisation shows',
+        'shell writing to a file of its own (-o): the result of SELECT / PRINT / .run must be in that file and nothing of it on stdout; '
+        'for every other command file + stdout together are taken as "what is printed" (some commands use print() to stdout)',
     ])
